@@ -224,3 +224,67 @@ def q_define(s: str) -> bool:
     if printed is None:
         return R(False)
     return R(rsh.argv('prog ' + printed) == ['prog', '-DA=1', '-D' + s, '-DZ=2'])
+
+
+# ---- kernel 3: auto_fill only fills what the script left unspecified ----------------------------
+from bfg9000 import file_types as _ft
+from bfg9000.path import Path as _Path
+
+
+class _Info:
+    def __init__(self, auto_fill, name, version, includes, libs):
+        self.auto_fill = auto_fill
+        self.name = name
+        self.version = version
+        self.includes = includes
+        self.libs = libs
+
+
+class _Proj:
+    name = 'proj'
+    version = '1.0'
+
+
+class _Inst:
+    pass
+
+
+class _ACtx:
+    pass
+
+
+def a_autofill(auto: bool, st_name: int, st_version: int, st_includes: int, st_libs: int) -> bool:
+    """pkg_config(auto_fill=...) : a field the script declared -- even as an empty list -- is kept
+    as declared; only fields left out (None) are filled from the project and the explicitly
+    installed headers / libraries, and only when auto_fill is on
+    pre: 0 <= st_name < 2 and 0 <= st_version < 2 and 0 <= st_includes < 3 and 0 <= st_libs < 3
+    post: _
+    """
+    hdr = _ft.HeaderDirectory(_Path('include', directory=True))
+    lib = _ft.StaticLibrary(_Path('libfoo.a'), 'elf', 'c')
+    other = _ft.StaticLibrary(_Path('libother.a'), 'elf', 'c')
+    declared = {
+        'name': [None, 'mine'][st_name], 'version': [None, '2.0'][st_version],
+        'includes': [None, [], [hdr]][st_includes], 'libs': [None, [], [other]][st_libs],
+    }
+    info = _Info(auto, declared['name'], declared['version'], declared['includes'],
+                 declared['libs'])
+    inst = _Inst()
+    inst.explicit = [hdr, lib]
+    ctx = _ACtx()
+    ctx.build = {'project': _Proj(), 'install': inst, 'pkg_config': [info]}
+    written = []
+    old = pc._write_pkg_config
+    pc._write_pkg_config = lambda context, i: written.append(i)
+    try:
+        pc.finalize_pkg_config(ctx)
+    finally:
+        pc._write_pkg_config = old
+    defaults = {'name': 'proj', 'version': '1.0', 'includes': [hdr], 'libs': [lib]}
+    ok = True
+    for k in ('name', 'version', 'includes', 'libs'):
+        want = declared[k]
+        if want is None and auto:
+            want = defaults[k]
+        ok = ok and getattr(info, k) == want
+    return R(ok and (written == [info]) == auto)
